@@ -22,7 +22,20 @@ Base = pa.DataFrameModel
 FIELD_SRC = {"omitted": None, "default": "pa.Field()", "ge0": "pa.Field(ge=0)", "ge0_nona": "pa.Field(ge=0, nullable=True, ignore_na=False)", "ge1_le5": "pa.Field(ge=1, le=5)",
              "nullable_coerce": "pa.Field(nullable=True, coerce=True)", "alias_x": "pa.Field(alias='x')",
              "unique": "pa.Field(unique=True)"}
-CFG_SRC = {"strict": {"T": "True", "F": "False", "filter": "'filter'"}, "coerce": {"T": "True", "F": "False"},
+REGISTER_SRC = """
+import pandera.extensions as _ext
+if not hasattr(pa.Check, "sum_le"):
+    @_ext.register_check_method(statistics=["limit"])
+    def sum_le(obj, *, limit):
+        if hasattr(obj, "lazyframe"):                       # polars: PolarsData
+            import polars as _pl
+            num = [c for c, t in obj.lazyframe.collect_schema().items() if t.is_numeric()]
+            tot = obj.lazyframe.select([_pl.col(c).sum() for c in num]).collect().row(0) if num else (0,)
+            return sum(x or 0 for x in tot) <= limit
+        return float(obj.select_dtypes("number").sum().sum()) <= limit
+"""
+CFG_SRC = {"sum_le": {"100": "{'limit': 100}", "5": "{'limit': 5}"},
+           "strict": {"T": "True", "F": "False", "filter": "'filter'"}, "coerce": {"T": "True", "F": "False"},
            "ordered": {"T": "True", "F": "False"}, "add_missing_columns": {"T": "True", "F": "False"},
            "multiindex_strict": {"T": "True", "F": "False"}, "multiindex_coerce": {"T": "True", "F": "False"},
            "name": {"nm": "'nm'", "kid": "'kid'"}}
@@ -143,6 +156,8 @@ def p_check(c, backend: str, frame_level: bool) -> Dict[str, Any]:
         return {"k": "ge", "arg": st.get("min_value"), "ina": bool(c.ignore_na)}
     if c.name == "less_than_or_equal_to":
         return {"k": "le", "arg": st.get("max_value"), "ina": bool(c.ignore_na)}
+    if c.name == "sum_le":
+        return {"k": "registered", "name": "sum_le", "arg": str(st.get("limit"))}
     sig = (_sig_pandas if backend == "pandas" else _sig_polars)(c._check_fn, frame_level)
     table = DF_SIG if frame_level else CHECK_SIG
     return {"k": "custom", "pred": table.get(str(sig), "other:%s" % (sig,)), "name": c.name}
@@ -186,6 +201,8 @@ def build_object_api(rec: Dict[str, Any], backend: str, ns: Dict[str, Any], clsn
                 out.append(pa.Check.ge(c["arg"], ignore_na=c["ina"]))
             elif c["k"] == "le":
                 out.append(pa.Check.le(c["arg"], ignore_na=c["ina"]))
+            elif c["k"] == "registered":
+                out.append(getattr(pa.Check, c["name"])(limit=int(c["arg"])))
             else:
                 out.append(pa.Check((DFPRED if frame else PRED)[c["pred"]], name=c["name"]))
         return out
@@ -312,6 +329,7 @@ def observe_model(vec: Dict[str, Any]) -> Dict[str, Any]:
         sys.modules[mod.__name__] = mod
         ns: Dict[str, Any] = mod.__dict__
         exec(PANDAS_HEADER if backend == "pandas" else POLARS_HEADER, ns)  # noqa: S102
+        exec(REGISTER_SRC, ns)  # noqa: S102 - a registered check method, named by Config attributes
         ns["PRED"], ns["DFPRED"], ns["PARSE"] = _pd_preds() if backend == "pandas" else _pl_preds()
         sources = {}
         for op, k in vec["hist"]:
